@@ -224,7 +224,7 @@ def plan(tier, seed):
 
 def run_shard(sh):
     rng = random.Random(1000 + sh['seed'])
-    cap = 300 if sh['tier'] == 'quick' else 700
+    cap = 400 if sh['tier'] == 'quick' else 700
     K, BGPLS = build_kinds(rng, cap)
     rng2 = random.Random(sh['seed'] * 100 + sh['part'])
     res = dict(evaluations=0, counters={}, maxima={}, sets={}, distinct=[], samples=[], violations=[])
